@@ -4,7 +4,7 @@
    every construction path of the Go evaluator reaches the representation of
    that canonical form is what the correspondence run checks (families of
    construction paths per denotation). *)
-From Arrai Require Import Base.Val Spec.SetAlg Eval.Interp Proofs.ValOrder Proofs.SetAlgP Proofs.KeyedP Proofs.CanonP.
+From Arrai Require Import Base.Val Spec.SetAlg Eval.Interp Proofs.ValOrder Proofs.SetAlgP Proofs.KeyedP Proofs.CanonP Proofs.WfP.
 
 (* a = b holds exactly when both denote the same value *)
 Theorem C02_equality_is_identity_of_denotations :
@@ -46,3 +46,16 @@ Example C02_probe :
   run_data 60 (ECmp CEq (ESetE [EBin BMerge (ETupE [(n_at, ELit (vint 0))]) (ETupE [(n_char, ELit (vint 97))])])
                         (ELit (vstr [97]))) = Ok vtrue.
 Proof. vm_compute. reflexivity. Qed.
+
+(* For every program of the reference semantics, whatever the fuel: the value it yields is in canonical
+   form - so a value has one representation per denotation however it was constructed - and two results
+   with the same members are the same value and compare equal. *)
+Theorem C02_every_result_is_canonical : forall n e v, run_data n e = Ok v -> norm v = v.
+Proof. exact run_data_canonical. Qed.
+Print Assumptions C02_every_result_is_canonical.
+
+Theorem C02_results_with_same_members_are_equal :
+  forall n m e1 e2 a b, run_data n e1 = Ok (VSet a) -> run_data m e2 = Ok (VSet b) ->
+    (forall x, In x a <-> In x b) -> VSet a = VSet b /\ veqb (VSet a) (VSet b) = true.
+Proof. exact results_extensional. Qed.
+Print Assumptions C02_results_with_same_members_are_equal.
